@@ -147,6 +147,10 @@ func (x *Exec) specKeyBuiltin(env *SpecEnv, name string, e *SExpr) (Value, bool)
 	case "concatid":
 		x.concatAxioms()
 		return IntV{App("strfn_concat", SInt, arg(0), arg(1))}, true
+	case "splithost":
+		return IntV{App("strfn_splithost", SInt, arg(0))}, true
+	case "pemnotafter":
+		return IntV{App("pem_notafter", SInt, arg(0))}, true
 	case "hashid":
 		x.injective("blake2b256", 1, "BLAKE2b-256 treated as injective on the inputs that occur (collision resistance, assumed)")
 		return IntV{App("blake2b256", SInt, arg(0))}, true
@@ -169,4 +173,44 @@ func (x *Exec) concatAxioms() {
 		Forall([]*Term{a, b}, App("strfn_hassuffix", SBool, c, b)),
 		Forall([]*Term{a, b}, Eq(App("strfn_concat_left", SInt, c, b), a)))
 	x.Trusted["string concatenation at identity level: a+b ends with b and determines a given b"] = true
+}
+
+// ---- certificates (C11)
+
+func init() {
+	// net.SplitHostPort(hostport): an error, or the host part as a function of the argument
+	models["net.SplitHostPort"] = func(x *Exec, fr *Frame, st *State, pc *preparedCall, k func(*State, []Value)) {
+		in := pc.args[0].(StrV)
+		errv := Var(x.fresh("splithosterr"), SInt)
+		st.assumeRaw(Or(Eq(errv, IntLit(0)), Gt(errv, IntLit(1<<40))))
+		x.freshErrs = append(x.freshErrs, errv)
+		x.ioErrAxiom()
+		host := x.freshValue(st, types.Typ[types.String], "host").(StrV)
+		port := x.freshValue(st, types.Typ[types.String], "port").(StrV)
+		st.assumeRaw(Implies(Eq(errv, IntLit(0)), Eq(x.strID(st, host), App("strfn_splithost", SInt, x.strID(st, in)))))
+		st.assumeRaw(Implies(Ne(errv, IntLit(0)), And(Eq(host.Len, IntLit(0)), Eq(port.Len, IntLit(0)))))
+		k(st, []Value{host, port, OpaqueV{T: errv, Type: errType()}})
+	}
+	// tls.X509KeyPair(certPEM, keyPEM): an error, or a certificate whose Leaf is populated
+	// (Go >= 1.23) - the parsed form of certPEM
+	models["crypto/tls.X509KeyPair"] = func(x *Exec, fr *Frame, st *State, pc *preparedCall, k func(*State, []Value)) {
+		sig := pc.fn.Type().(*types.Signature)
+		ct := x.resolveType(sig.Results().At(0).Type())
+		errv := x.freshErr(st, "keypairerr").(OpaqueV)
+		st2 := st.clone()
+		st2.assumeRaw(Ne(errv.T, IntLit(0)))
+		k(st2, []Value{x.zeroValue(ct), errv})
+		st.assumeRaw(Eq(errv.T, IntLit(0)))
+		cv := x.freshValue(st, ct, "keypair")
+		if sv, ok := cv.(StructV); ok {
+			if lp, ok := sv.F["Leaf"].(PtrV); ok {
+				lp.Addr = x.allocAddr(st, "leaf")
+				// NotAfter of the parsed certificate: what the PEM block says
+				na := App("pem_notafter", SInt, x.identityOf(st, pc.args[0]))
+				heapFieldLV{p: lp, field: "NotAfter", ftype: x.resolveType(structFieldType(types.NewPointer(lp.Elem), "NotAfter"))}.Store(x, st, IntV{na})
+				sv.F["Leaf"] = lp
+			}
+		}
+		k(st, []Value{cv, errv})
+	}
 }
